@@ -161,7 +161,7 @@ def obligations(tier):
     for kind in range(6):
         for fr in (relevant[kind] if tier == "quick" else range(12)):
             for bf in (False, True):
-                obs.append(dict(name=f"match_unit[kind{kind},frag{fr},before={bf}]", func="match_unit", pre=f"kind == {kind} and frag == {fr} and before == {bf}" + (" and ext in (0, 4)" if tier == "quick" else ""), timeout=(3 * T if fr in (2, 7) else T),
+                obs.append(dict(name=f"match_unit[kind{kind},frag{fr},before={bf}]", func="match_unit", pre=f"kind == {kind} and frag == {fr} and before == {bf}" + (" and ext in (0, 4)" if tier == "quick" else ""), timeout=(3 * T if fr in (2, 7) else 2 * T if bf else T),
                                 bounds="one symbolic character (12-letter alphabet incl. upper case, blank, '-', '_') before/after the fragment, 8 extensions (quick: 2)"))
     for n in range(4):
         for spec in range(8):
